@@ -80,6 +80,24 @@ func recordedNames() map[string]bool {
 	return out
 }
 
+var recordedCache map[string]bool
+
+// IsRecorded reports whether the function existed (under this or its adopted earlier
+// name) when the record of the repository's functions was taken.
+func (p *Prog) IsRecorded(fn *Fn) bool {
+	if recordedCache == nil {
+		recordedCache = recordedNames()
+		if recordedCache == nil {
+			recordedCache = map[string]bool{}
+		}
+	}
+	if recordedCache[rawQualName(fn.Obj)] {
+		return true
+	}
+	_, renamed := aliases[fn.Obj]
+	return renamed
+}
+
 // newFunctions lists the functions of the loaded tree that are not in the record.
 func (p *Prog) newFunctions(recorded map[string]bool) []*Fn {
 	var out []*Fn
